@@ -284,7 +284,9 @@ Qed.
 Lemma merge_group_head_ents now si root root' lg :
   merge_group_head now si root = Ok (root', lg) -> Permutation (ents root') (ents root).
 Proof.
-  unfold merge_group_head. intro H. destruct (fnl_db _ _) as [loc|]; [|injection H as <- _; apply Permutation_refl].
+  intro H. apply merge_group_head_cases in H as [(ri & rc & ri' & -> & _ & _ & -> & _)|[_ H]].
+  { (* the root itself: the children are not touched *) rewrite !ents_NG. apply Permutation_refl. }
+  unfold merge_group_head_below in H. destruct (fnl_db _ _) as [loc|]; [|injection H as <- _; apply Permutation_refl].
   destruct (find_group _ root) as [[di dc]|] eqn:E1; cbn [of_option bind] in H; [|discriminate].
   destruct (group_merge_with now di si) as [[di' lg1]| | |] eqn:E2; cbn [bind] in H; try discriminate.
   destruct (put_group _ di' dc root) as [root1|] eqn:E3; cbn [of_option bind] in H; [|discriminate].
